@@ -522,6 +522,7 @@ fn main() {
     for (what, body) in [
         ("5000 nested parentheses in a function without commands", format!("pub fn deep() -> u32 {{ {}1{} }}\n", "(".repeat(5000), ")".repeat(5000))),
         ("a sum of 20000 literals in a function without commands", format!("pub fn flat() -> u64 {{ 0{} }}\n", " + 1".repeat(20000))),
+        ("a chain of 6000 else-if branches in a function without commands", format!("pub fn pick(x: u32) -> u32 {{ if x == 0 {{ 0 }}{} else {{ 1 }} }}\n", (1..6000).map(|i| format!(" else if x == {} {{ {} }}", i, i)).collect::<String>())),
     ] {
         rep.case("deeply_nested_sources_do_not_abort_the_run", &format!("src/deep.rs: {} --validation none", what), &|| {
             let p = project(&root, &format!("deep_{}", what.len()), Some(conf_plain));
